@@ -190,19 +190,39 @@ func (m *Map) Range(f func(key, value any) bool) {
 	m.real.Range(f)
 }
 
-// Pool mirrors sync.Pool without pooling (always New): pooled objects would be shared state the
-// scheduler does not control.
+// Pool mirrors sync.Pool. Outside an exploration it is the real pool. Under the scheduler it
+// is a per-execution LIFO shared by all threads: Get and Put are scheduling points, Put(x)
+// happens-before the Get that returns x, and a Get deterministically returns the value Put most
+// recently by ANY thread, so that the interleaving "A puts, B gets A's object while A still
+// uses it" exists and can be judged (the real pool may or may not produce it).
 type Pool struct {
-	New func() any
+	New  func() any
+	real sync.Pool
 }
 
 func (p *Pool) Get() any {
+	v, ok, handled := vrt.PoolGet(unsafe.Pointer(p))
+	if !handled {
+		if v := p.real.Get(); v != nil {
+			return v
+		}
+	} else if ok {
+		return v
+	}
 	if p.New != nil {
 		return p.New()
 	}
 	return nil
 }
-func (p *Pool) Put(any) {}
+
+func (p *Pool) Put(v any) {
+	if v == nil {
+		return
+	}
+	if !vrt.PoolPut(unsafe.Pointer(p), v) {
+		p.real.Put(v)
+	}
+}
 
 // OnceFunc, OnceValue, OnceValues mirror the sync helpers on top of the Once shim.
 func OnceFunc(f func()) func() {
